@@ -340,16 +340,27 @@ def xff11_roundtrip_one(h):
 _COUNT_NAME_BYTES = [16, 0, 5, 9, 1, 12, 3, 7, 2, 15, 4, 8, 6, 10, 11, 13]
 
 
-@oset("at5.xFF11.roundtrip.counts-0-16", ["C03"], ABILITY_FNS)
-def xff11_roundtrip_counts(h):
-    """All repeat counts 0..16 (the AC index byte is documented as 0-15; an AirTouch 5 has at most 8 ACs),
-    every record fully symbolic; the name of record i has a fixed UTF-8 length (16, 0, 5, 9, 1, 12, ...
-    bytes: records are encoded / decoded independently, every name length is covered by the one-record set)."""
-    n = h.choice("count", list(range(0, 17)))
+def _ability_counts(h, counts):
+    n = h.choice("count", counts)
     msg = h.new(XABL + ":AcAbilityMessage", [gen_ac_ability(h, i, _COUNT_NAME_BYTES[i]) for i in range(n)])
     # an empty ability message is, on the wire, the request for all ACs (no data): same message id
     roundtrip_plain(h, XABL + ":AcAbilityEncoder", XABL + ":AcAbilityDecoder", msg, at5_ext_subheader, ID_ABILITY,
                     expect=h.new(XABL + ":AcAbilityRequest", ac_number="ALL") if n == 0 else None)
+
+
+@oset("at5.xFF11.roundtrip.counts-0-8", ["C03"], ABILITY_FNS)
+def xff11_roundtrip_counts(h):
+    """Repeat counts 0..8 (an AirTouch 5 has at most 8 ACs), every record fully symbolic; the name of record
+    i has a fixed UTF-8 length (16, 0, 5, 9, 1, 12, ... bytes: records are encoded / decoded independently,
+    every name length is covered by the one-record set)."""
+    _ability_counts(h, list(range(0, 9)))
+
+
+@oset("at5.xFF11.roundtrip.counts-9-16", ["C03"], ABILITY_FNS)
+def xff11_roundtrip_counts_hi(h):
+    """Repeat counts 9..16 (the AC index byte is documented as 0-15; C03 asks for all repeat counts 0..16).
+    Split from counts-0-8 only to keep each set short."""
+    _ability_counts(h, list(range(9, 17)))
 
 
 def check_ability_record(h, rec, b, tag=""):
